@@ -185,10 +185,10 @@ PROPS["C15"] = {
     "lean": ["OlricModel.Props.C15"],
     "streams": [("cluster", (14, 150), (200, 400))],
     "model": True,
-    "level_text": "Theorems: the option codec of a forwarded Put (writePutCommand -> handler) is the identity on every configuration the API can build, so the owner executes the same Put whatever the entry path (C15_put_roundtrip, C15_put_paths_equal); a multi-key Delete deletes every key on its owner exactly once and returns the key count for every processing order of the per-owner groups; pipeline slot mapping. The handler/forwarding shapes are extracted from the source on every run. Tied to the code by the cluster stream: every operation kind x option combination through embedded (owner / non-owner), cluster client, raw RESP and (multi-command) pipelines, results and white-box copies compared.",
+    "level_text": "Theorems: the option codec of a forwarded Put (writePutCommand -> handler) is the identity on every configuration the API can build, so the owner executes the same Put whatever the entry path (C15_put_roundtrip, C15_put_paths_equal); a multi-key Delete deletes every key on its owner exactly once and returns the key count for every processing order of the per-owner groups; for EVERY queue of pipelined commands, every partition state and every behaviour of the partition owners, the futures read exactly the replies of the same commands issued one at a time, none is out of range and every partition ends in the same state (C15_pipeline_futures, C15_pipeline_state, C15_pipeline_every_future_answered over Cluster/Pipeline.lean: addCommand's slots, per-partition in-order execution), and the pipeline's life cycle (not ready before Exec, Exec once, futures of a discarded generation closed for ever, a closed pipeline refuses Exec and Discard: C15_pipeline_lifecycle, C15_pipeline_old_futures_closed). The handler/forwarding shapes are extracted from the source on every run. Tied to the code by the cluster stream: every operation kind x option combination through embedded (owner / non-owner), cluster client, raw RESP and (multi-command) pipelines, results and white-box copies compared.",
     "design_ref": "DESIGN.md §6 C15",
-    "modelled": "dmap.writePutCommand, protocol.Put.Command, putCommandHandler, DMap.put forwarding, deleteKeys, pipeline addCommand (Proto/Codec.lean)",
-    "assumptions": ["EX/EXAT are carried as decimal float seconds: only float-exact values are compared (A-float)", "a zero duration option (PX 0) is indistinguishable from an absent one on the wire (known limitation of the wire format, not exercised)"],
+    "modelled": "dmap.writePutCommand, protocol.Put.Command, putCommandHandler, DMap.put forwarding, deleteKeys (Proto/Codec.lean); DMapPipeline addCommand / execOnPartition / Future.Result / Exec / Discard / Close (Cluster/Pipeline.lean)",
+    "assumptions": ["EX/EXAT are carried as decimal float seconds: only float-exact values are compared (A-float)", "a zero duration option (PX 0) is indistinguishable from an absent one on the wire (known limitation of the wire format, not exercised)", "pipeline theorems: what a partition owner does with one command is a parameter acting on that partition's state only (tied per command by the cluster stream); connection failures during Exec and commands queued after Exec are outside the model"],
 }
 
 PROPS["C10"] = {
